@@ -133,6 +133,8 @@ class RecApp(app_mod.Application):
         self.sim.app_requests.append((self.idx, message))
         h = message.header
         self.sim.obs.append(f"APP a{self.idx} REQ cmd={h.command_code} hbh={h.hop_by_hop_identifier} e2e={h.end_to_end_identifier}")
+        if self.raise_on_request == "raise0":
+            raise KeyError            # an exception without arguments
         if self.raise_on_request:
             raise RuntimeError("handler failed")
 
@@ -153,6 +155,8 @@ class RecThreadApp(app_mod.ThreadingApplication):
         self.sim.obs.append(f"APP a{self.idx} REQ cmd={h.command_code} hbh={h.hop_by_hop_identifier} e2e={h.end_to_end_identifier}")
         if self.outcome == "raise":
             raise RuntimeError("handler failed")
+        if self.outcome == "raise0":
+            raise KeyError            # an exception without arguments
         if self.outcome == "none":
             return None
         return self.generate_answer(message, result_code=2001)
@@ -511,7 +515,7 @@ class Sim:
             if isinstance(a, RecThreadApp):
                 a.outcome = t[2]
             else:
-                a.raise_on_request = t[2] == "raise"
+                a.raise_on_request = t[2] if t[2] in ("raise", "raise0") else False
         elif op == "stop":
             force = t[1] == "1"
             self.wait_events = [x.replace("_", " ") for x in t[3:]]
